@@ -554,7 +554,22 @@ class Executor:
         if t.startswith("["):
             return VUnknown(self.fresh_uid(path, "arr"), dest_ty)
         if t.startswith("{"):
-            return VUnknown(self.fresh_uid(path, "closure"), dest_ty)
+            # closure / coroutine aggregate: `{closure@file:l:c: l:c} { captured: op, .. }` (captures by position)
+            d, k = 0, 0
+            for k, c in enumerate(t):
+                if c == "{":
+                    d += 1
+                elif c == "}":
+                    d -= 1
+                    if d == 0:
+                        break
+            cl = VAdt(t[:k + 1], None, {}, uid=self.fresh_uid(path, "closure"))
+            rest = t[k + 1:].strip()
+            if rest.startswith("{") and rest.endswith("}"):
+                for i, it in enumerate(split_top(rest[1:-1])):
+                    if ":" in it:
+                        cl.fields[(None, str(i))] = self.operand(path, frame, it.split(":", 1)[1].strip())
+            return cl
         return self.aggregate(path, frame, t, dest_ty)
 
     def aggregate(self, path, frame, t, dest_ty):
